@@ -130,6 +130,10 @@ pub fn embed(t: &DataType, v: &Value) -> Option<Value> {
             }
             Some(Value::structured(out))
         }
+        // a value wrapped in some(.) read in a non-optional type: some(x) -> x
+        (t, Value::Optional(x)) if !matches!(t, DataType::Optional(_)) => match x.as_ref() { Some(x) => embed(t, x), None => None },
+        // a union type: the first field the value embeds into
+        (DataType::Union(u), x) => u.fields().iter().find_map(|(_, ft)| embed(ft, x)),
         // Base<DataType,Struct>: a non-struct x is read as the struct {0: x}
         (DataType::Struct(_), x) => embed(t, &Value::structured(vec![("0".to_string(), std::sync::Arc::new(x.clone()))])),
         (DataType::Integer(_), Value::Boolean(b)) => Some(Value::integer(**b as i64)),
@@ -145,5 +149,22 @@ pub fn embed(t: &DataType, v: &Value) -> Option<Value> {
 }
 pub fn member(t: &DataType, v: &Value) -> bool {
     use qrlew::data_type::Variant as _;
-    match std::panic::catch_unwind(std::panic::AssertUnwindSafe(|| embed(t, v).map(|w| t.contains(&w)).unwrap_or(false))) { Ok(b) => b, Err(_) => false }
+    match (t, v) {
+        (DataType::Optional(o), Value::Optional(x)) => match x.as_ref() { None => true, Some(x) => member(o.data_type(), x) },
+        (DataType::Optional(o), x) => member(o.data_type(), x),
+        // a union type holds the values of its fields
+        (DataType::Union(u), x) => u.fields().iter().any(|(_, ft)| member(ft, x)),
+        // some(x) read in a non-optional type
+        (t, Value::Optional(x)) => match x.as_ref() { Some(x) => member(t, x), None => false },
+        _ => match std::panic::catch_unwind(std::panic::AssertUnwindSafe(|| embed(t, v).map(|w| t.contains(&w)).unwrap_or(false))) { Ok(b) => b, Err(_) => false },
+    }
+}
+
+/// the float value misses the range by a few units in the last place only
+pub fn ulp_close(t: &DataType, v: &Value) -> bool {
+    let y = match v { Value::Float(f) => **f, Value::Optional(o) => match o.as_deref() { Some(Value::Float(f)) => **f, _ => return false }, _ => return false };
+    let t = match t { DataType::Optional(o) => o.data_type().clone(), x => x.clone() };
+    if let DataType::Float(iv) = t {
+        iv.iter().any(|[a, b]| { let eps = 1e-8 * y.abs().max(a.abs()).max(b.abs()).max(1.0); y >= a - eps && y <= b + eps })
+    } else { false }
 }
